@@ -234,7 +234,8 @@ func checkC16(P *Prog, r *Result) {
 	for changed := true; changed; {
 		changed = false
 		for _, fn := range P.Funcs {
-			if isDeriv[fn] || fn.Parent() != nil || fn.Signature.Recv() == nil || !R.isKind(fn.Signature.Recv().Type()) {
+			// a method of a kind, or a plain function taking a kind object (a helper such as a clone function)
+			if isDeriv[fn] || fn.Parent() != nil || len(fn.Params) == 0 || !R.isKind(fn.Params[0].Type()) || funcPkgPath(fn) != pkgZog {
 				continue
 			}
 			res := fn.Signature.Results()
@@ -312,7 +313,7 @@ func checkC16(P *Prog, r *Result) {
 					continue
 				}
 				p := d.objFieldProv(obj, f, rt, 0)
-				c := fmt.Sprintf("%s#%s", fname(fn), f.Name())
+				c := fmt.Sprintf("%s#%s", fname(fn), P.roleName(f))
 				rule := "C16/no-shared-backing"
 				if isMap {
 					rule = "C16/fresh-map"
@@ -515,7 +516,7 @@ func (P *Prog) checkMergeOrder(r *Result) {
 		if ci.builtin == "append" && len(ci.instr.Common().Args) == 2 {
 			src := ci.instr.Common().Args[1]
 			if _, f := loadOfField(cv(src)); f != nil {
-				evs = append(evs, ev{in, srcOwner(src), f.Name()})
+				evs = append(evs, ev{in, srcOwner(src), P.roleName(f)})
 			}
 		}
 	})
@@ -582,7 +583,7 @@ func instrBeforeOrReach(a, b ssa.Instruction) bool {
 // checkSelection: Pick/Omit/Extend touch exactly the keys their arguments name.
 func (P *Prog) checkSelection(r *Result) {
 	var schemaMapT types.Type
-	if f := structField(P.roles.KindByName["StructSchema"], "schema"); f != nil {
+	if f := P.kindField(P.roles.KindByName["StructSchema"], "schema"); f != nil {
 		schemaMapT = f.Type()
 	}
 	isSchemaMap := func(t types.Type) bool {
@@ -609,7 +610,7 @@ func (P *Prog) checkSelection(r *Result) {
 			for _, rt := range P.rootsOf(v) {
 				if rt.kind == rkParam && rt.v == recv {
 					for _, s := range rt.path {
-						if s.field != nil && s.field.Name() == "schema" {
+						if s.field != nil && P.roleName(s.field) == "schema" {
 							return true
 						}
 					}
